@@ -268,6 +268,9 @@ func c10Body(c *core.Ctx) {
 		}
 		c.Begin(idx, spec)
 		orig := vexec.Run(spec, &vexec.RunOpts{Scratch: c.Scratch, KeepDirs: true, RecordWrites: true})
+		if orig.StopDropped {
+			c.Count("original_runs_whose_stop_was_dropped", 1) // C05's business; the recorded run is still usable
+		}
 		if orig.Inconclusive != "" || orig.SetupErr != "" || len(orig.Lines) == 0 {
 			if orig.Inconclusive != "" {
 				c.Inconclusive(fmt.Sprintf("case %d original run: %s", idx, orig.Inconclusive))
